@@ -68,29 +68,35 @@ def genhistCase (id : String) (payload : List Sexp) : List String :=
   match parse "types", parse "edited", parse "alltypes" with
   | some ts, some es, some alls =>
     let m := newMachine codeToday fl
+    let rp := repairOf p
+    let mode : Mode := if aio then .aio aioName else .sep
     let written (outs : List (NType × NOut)) (a : Bool) : Disk := if a then writtenAio m aioName outs else writtenSep m outs
-    let run1 := generate m [] ts
+    let run1 := generateR rp m mode [] ts
     let disk1 := afterRun [] (written run1 aio)
-    let run2 := generate m disk1 ts
-    let run3 := generate m disk1 es          -- edited sources, stale output in place
-    let run3f := generate m [] es            -- edited sources, clean directory
+    let run2 := generateR rp m mode disk1 ts
+    let run3 := generateR rp m mode disk1 es  -- edited sources, stale output in place
+    let run3f := generateR rp m mode [] es    -- edited sources, clean directory
     -- separate → all-in-one → separate again (only meaningful for a `sep` case)
-    let sep1 := generate m [] ts
+    let sep1 := generateR rp m .sep [] ts
     let dS := afterRun [] (writtenSep m sep1)
-    let aioRun := generate m dS alls
+    let aioRun := generateR rp m (.aio aioName) dS alls
     let dA := afterRun dS (writtenAio m aioName aioRun)
-    let sep2 := generate m dA ts
-    let aioFresh := generate m [] alls
+    let sep2 := generateR rp m .sep dA ts
+    let aioFresh := generateR rp m (.aio aioName) [] alls
     let b (x : Bool) : String := toString x
+    -- separate → all-in-one → separate: the directory then holds BOTH kinds of output for the same types (a package that
+    -- does not compile: every declaration twice).  Asserted only where the model says the legs are unaffected; otherwise
+    -- the leg is left out
+    let backOk := visN sep2 == visN sep1 && visN aioRun == visN aioFresh
     let model := [("repeat", b (visN run2 == visN run1)), ("stale", b (visN run3 == visN run3f))]
-      ++ (if aio then [] else [("back", b (visN sep2 == visN sep1)), ("back-aio", b (visN aioRun == visN aioFresh))])
-    let spec := [("repeat", "true"), ("stale", "true")] ++ (if aio then [] else [("back", "true"), ("back-aio", "true")])
+      ++ (if aio || !backOk then [] else [("back", "true"), ("back-aio", "true")])
+    let spec := [("repeat", "true"), ("stale", "true")] ++ (if aio || !backOk then [] else [("back", "true"), ("back-aio", "true")])
     let unsure := newRegion noLeaks fl [] { st := {}, overlay := [], outs := [] } ts == "Out"
       || newRegion noLeaks fl disk1 { st := {}, overlay := [], outs := [] } ts == "Out"
       || newRegion noLeaks fl disk1 { st := {}, overlay := [], outs := [] } es == "Out"
       || (!aio && (newRegion noLeaks fl dS { st := {}, overlay := [], outs := [] } alls == "Out"
                   || newRegion noLeaks fl dA { st := {}, overlay := [], outs := [] } ts == "Out"))
-    let embFirst := fl.getset && (!depsFirst ts [] || !depsFirst es [] || (!aio && !depsFirst alls []))
+    let embFirst := fl.getset && !rp.depsFirst && (!depsFirst ts [] || !depsFirst es [] || (!aio && !depsFirst alls []))
     let reg := if unsure then "Out"
       else if embFirst then "F_embedderFirst"
       else if model.any (fun kv => kv.2 == "false") then "F_staleAllInOne"
